@@ -8,7 +8,7 @@ META = dict(
     technique='TLA+ spec ConflictMarkers (format state machine + C06 contracts on MergeAlgebra): TLC model-checks the format + TLC-judged traces (I->S) of the real conflicts::update_from_content against a real store',
     text='Contracts: UneditedOK - reading back exactly the bytes that were materialised yields the identical conflict (same ids, same '
          'unsimplified arity, absent terms kept, also when the content merge resolves and no markers are written); EditAppliedOK - when the '
-         'file still parses under the format (SpecParse) with exactly the conflict hunks it had, i.e. only resolved text changed, the result '
+         'file still parses under the format (SpecParse) with exactly the conflict hunks it had and every conflict region (markers, headers, bodies) is byte-identical to what was written, i.e. only resolved text changed, the result '
          'has the original arity, every changed position carries the new text of the simplified term whose id it held (same parity), absent '
          'terms stay absent unless they received text, and the result denotes exactly the edited simplified conflict (MergeAlgebra '
          'SameDenote), so cancelled pairs stay cancelled.  Whether an edit is in scope is decided by the specification from the bytes, not '
@@ -17,7 +17,7 @@ META = dict(
          'with and without labels are written to a real store (testutils::TestRepo), materialised with the store\'s merge options, left '
          'unedited or edited by one line (replace / insert / delete anywhere), and passed to update_from_content; TLC judges every record.',
     note='Library level only: the end-to-end variant through LocalWorkingCopy check-out + snapshot (executable-bit differences live there) '
-         'belongs to the working-copy group.  Edits that change a conflict region or break the markers are outside the property and are '
+         'belongs to the working-copy group.  Edits that touch a conflict region (bodies, marker or header lines, even ones the parser ignores) or break the markers are outside the property and are '
          'only checked for panics.  FileIds are projected to small integers by identity.',
     design='4 C06',
 )
@@ -34,7 +34,10 @@ def nontrivial(r):
 
 def run(ctx):
     # the format itself (shared with C05): writer o parser = id, and editing resolved text keeps the conflicts
-    for cfg in ctx.q(("MC_ConflictMarkers",), ("MC_ConflictMarkers", "MC_ConflictMarkers_crlf", "MC_ConflictMarkers_thorough5")):
+    # MC_ConflictMarkers_edit: scope self-test (InvEditScope) - an edit of any marker/header line, incl. the
+    # "\\\\\\\\ to:" continuation of the diff header, is out of scope; an edit of resolved text is in scope
+    for cfg in ctx.q(("MC_ConflictMarkers", "MC_ConflictMarkers_edit"),
+                     ("MC_ConflictMarkers", "MC_ConflictMarkers_edit", "MC_ConflictMarkers_crlf", "MC_ConflictMarkers_thorough5")):
         r = vf.tlc_mc("MC_ConflictMarkers", cfg, workers=ctx.q(8, 14), timeout=ctx.q(400, 3000))
         ctx.add_mc(r, cfg)
     textlib.negatives(ctx, "MC_ConflictMarkers", (("nostrip", "InvRoundTrip"), ("shortmarker", "InvRoundTrip")))
